@@ -45,6 +45,48 @@ impl SegmentIdLoader {
         ids
     }
 
+    /// Restricts `all_dirs` to the segments that the shard's `segments.idx` names.
+    ///
+    /// A numeric directory that is not in the index was never published (crashed flush or
+    /// compaction output) or has been retired and not reclaimed yet; it must not become live.
+    /// If the index file is missing or unreadable the full list is returned (legacy behaviour;
+    /// `SegmentIndex::load` rebuilds the index from disk in that case).
+    pub fn load_published(&self, all_dirs: &[String]) -> Vec<String> {
+        use crate::engine::core::SegmentEntry;
+        use crate::shared::storage_header::BinaryHeader;
+
+        let path = self.segment_base_dir.join("segments.idx");
+        let Ok(bytes) = fs::read(&path) else {
+            return all_dirs.to_vec();
+        };
+        if bytes.len() < BinaryHeader::TOTAL_LEN
+            || BinaryHeader::read_from(&bytes[..BinaryHeader::TOTAL_LEN]).is_err()
+        {
+            return all_dirs.to_vec();
+        }
+        let Ok(entries) =
+            bincode::deserialize::<Vec<SegmentEntry>>(&bytes[BinaryHeader::TOTAL_LEN..])
+        else {
+            return all_dirs.to_vec();
+        };
+        let published: std::collections::HashSet<String> =
+            entries.iter().map(|e| e.label()).collect();
+        let kept: Vec<String> = all_dirs
+            .iter()
+            .filter(|d| published.contains(*d))
+            .cloned()
+            .collect();
+        if kept.len() != all_dirs.len() {
+            warn!(
+                target: "segment_id_loader::load_published",
+                total = all_dirs.len(),
+                published = kept.len(),
+                "Ignoring unpublished or retired segment directories at startup"
+            );
+        }
+        kept
+    }
+
     /// Determines the next available segment ID (max + 1) based on the given list.
     pub fn next_id(segment_ids: &Arc<RwLock<Vec<String>>>) -> u64 {
         let ids = segment_ids.read().unwrap();
